@@ -17,6 +17,7 @@ Interface to an X12 data stream.
    837 2400/LX
    837 HL tree
 """
+import re
 import sys
 
 # Intrapackage imports
@@ -216,11 +217,11 @@ class X12Base(object):
         @return: Int value if successful, None if not
         @rtype: int
         """
-        try:
-            return int(str_val)
-        except (ValueError, TypeError):
+        # an X12 numeric: digits with an optional minus; int() alone would also
+        # take '+4', ' 4', '0_4' and digits of other scripts
+        if not isinstance(str_val, str) or re.match(r'-?[0-9]+\Z', str_val) is None:
             return None
-        return None
+        return int(str_val)
 
     def get_isa_id(self):
         """
